@@ -400,7 +400,11 @@ def run_case(case):
     key = "%s%s" % (clause, (":" + cls) if cls else "")
     if len(viol) < 5 and not any(v["key"] == key for v in viol):
       viol.append({"key": key, "what": what, "detail": dict(case=case, **d)})
-  model, names = build_model(case)
+  try:
+    model, names = build_model(case)
+  except ValueError:
+    # the STOCK program itself is not a valid Keras model (spatial extent exhausted by the chain): outside the space
+    model, names = None, []
   if model is None:
     return {"evals": 0, "nontrivial": 0, "state": "invalid", "digest": "invalid", "violations": [],
             "info": {"invalid_programs": 1}}
@@ -488,3 +492,6 @@ def run_case(case):
           "state": repr(sorted((k, repr(v)) for k, v in case.items())), "digest": common.digest(qmodel.to_json()),
           "violations": viol, "traces": evals,
           "sample": {"program": case["seq"], "form": case["form"], "dictionary": qdict_before, "converted": converted}}
+
+# (appended: sub-lattices added after the seeded waves; kept out of the original RULE text for readability)
+RULE = RULE + "; plus: Bidirectional wrappers (default / explicit backward layer); dictionary entries without a key for the layer's activation kind; enable_bn_folding=True on programs with nothing to fold"
